@@ -58,6 +58,8 @@ def generate(ctx):
         if rng.random() < 0.5:
             ops = ops[:-1]
         yield {"kind": "crash", "ops": ops, "valid": False}
+    for n in ([100000] if ctx.quick() else [99999, 100000, 100001, 250000]):
+        yield {"kind": "big", "n": n}
     files = G.shipped_gro_files()
     lim = 20000 if ctx.quick() else 100000
     for f in files:
@@ -89,6 +91,10 @@ def _verdict_of(back):
     if "rerr" in back:
         return ("R", back["rerr"]), back
     return ("A", back["recs"], back["box"]), back
+
+
+def digest_of(ops):
+    return hashlib.sha1(repr(ops).encode()).hexdigest().lstrip("0123456789")
 
 
 def _same_recs(a, b):
@@ -126,6 +132,23 @@ def _eval_crash(ctx, case):
         elif complete[0] != "A" or len(complete[1]) != nrec:
             ctx.oracle_fail("complete-file-not-accepted", case, {"verdict": complete[:2]})
             valid = False
+
+    if valid:
+        # the writer is abandoned (never closed, object garbage-collected) after k records
+        body = [o for o in ops if o[0] != "x"]
+        nw = [i for i, o in enumerate(body) if o[0] == "w"]
+        cut = nw[(len(digest_of(ops)) + nrec) % len(nw)] + 1 if nw else len(body)
+        for upto in sorted({cut, len(body)}):
+            apath = os.path.join(ctx.scratch, "c14-abandoned.gro")
+            data = G.run_abandoned(apath, body[:upto])
+            v, _ = _verdict(ppath, data)
+            os.unlink(apath)
+            ctx.oracle_ok()
+            ctx.count("crash-abandoned-writer:" + ("rejected-" + v[1] if v[0] == "E" else "ACCEPTED"))
+            if v[0] != "E":
+                ctx.oracle_fail(f"crash-point-accepted:writer-abandoned-without-close:"
+                                f"{'declared' if declared else 'backfilled'}", case,
+                                {"ops_applied": upto, "bytes": data, "verdict": v[:2]})
 
     seen = {}
     digest = hashlib.sha1(repr(ops).encode()).hexdigest()
@@ -326,7 +349,65 @@ def _eval_prefix(ctx, case):
     ctx.model.ask("gro_prefix", hexs(data) + " " + " ".join([str(len(mks))] + [str(k) for k in mks]), cb, case)
 
 
+def _eval_big(ctx, case):
+    """Files at and just above 100000 atoms (the five-digit wrap, and a natural place for a 'large system'
+    special case — seed C14-4: box line checked lazily for >= 100000 atoms).  Oracle only (the byte-list
+    model is not asked to chew 4.5 MB): every truncation before the box line must be rejected by
+    GroFile(path); the complete file must be accepted with n records."""
+    n = int(case["n"])
+    lines = ["big system", "%5d" % n if n < 100000 else str(n)]
+    for i in range(n):
+        lines.append("%5d%-5s%5s%5d%8.3f%8.3f%8.3f" % ((i // 3 + 1) % 100000, "SOL", ("OW", "HW1", "HW2")[i % 3],
+                                                       (i + 1) % 100000, (i % 97) * 0.1, (i % 89) * 0.1, (i % 83) * 0.1))
+    body = ("\n".join(lines) + "\n").encode()
+    box = b"  10.00000  10.00000  10.00000\n"
+    full = body + box
+    path = os.path.join(ctx.scratch, "c14-big.gro")
+    from gaddlemaps.parsers import GroFile
+    import warnings
+
+    def opens(data):
+        G.write_file(path, data)
+        with warnings.catch_warnings():
+            warnings.simplefilter("ignore")
+            try:
+                g = GroFile(path)
+            except Exception as e:   # noqa: BLE001
+                return ("E", type(e).__name__)
+            try:
+                k = sum(1 for _ in g)
+                return ("A", k)
+            except Exception as e:   # noqa: BLE001
+                return ("R", type(e).__name__)
+            finally:
+                g.close()
+    ctx.case({"big": n}, nontrivial=True, sample={"kind": "big", "n": n})
+    ctx.count(f"big:n={n}")
+    v = opens(full)
+    ctx.oracle_ok()
+    if v != ("A", n):
+        ctx.oracle_fail("complete-file-not-accepted:big", case, {"verdict": v})
+    line = len(lines[2]) + 1
+    cuts = {"before-box-line": len(body), "mid-last-atom-line": len(body) - line // 2,
+            "one-atom-line-short": len(body) - line, "half-file": len(body) // 2,
+            "box-line-started": len(body) + 5}
+    # the unclosed writer: placeholder count, all n lines, no box line
+    unclosed = ("\n".join([lines[0], " " * 9] + lines[2:]) + "\n").encode()
+    for name, data in [(k, full[:c]) for k, c in cuts.items()] + [("writer-never-closed", unclosed)]:
+        v = opens(data)
+        ctx.oracle_ok()
+        ctx.count(f"big:{name}:" + ("rejected" if v[0] == "E" else "opened"))
+        if name == "box-line-started":
+            if v[0] == "A" and v[1] != n:
+                ctx.oracle_fail("prefix-accepted-with-different-records:big", case, {"cut": name, "verdict": v})
+        elif v[0] != "E":
+            ctx.oracle_fail(f"prefix-before-box-accepted:big:{name}", case, {"cut": name, "n": n, "verdict": v})
+    os.unlink(path)
+
+
 def evaluate(ctx, case):
+    if case["kind"] == "big":
+        return _eval_big(ctx, case)
     if case["kind"] == "crash":
         return _eval_crash(ctx, case)
     if case["kind"] == "prefix":
